@@ -1570,3 +1570,50 @@ func (w *World) rangeValueOfNonNilMap(v ssa.Value) bool {
 	}
 	return w.mapNeverHoldsNil(fld)
 }
+
+// liftedCall: a call of some target function as seen from an enclosing function of interest:
+// the call may be made by a forwarding helper (deliver(conn, data, from) calling
+// conn.HandleInbound(data, from)); args are then the helper's arguments at its call site.
+type liftedCall struct {
+	fn   *ssa.Function       // the function of interest (or the direct caller when none is reached)
+	at   ssa.CallInstruction // the call site inside fn
+	args []ssa.Value         // the target's arguments in fn's terms
+}
+
+// liftCalls enumerates the calls of target, lifted through unexported forwarding helpers
+// (depth-limited) until a function accepted by stop is reached.
+func (w *World) liftCalls(target *ssa.Function, stop func(*ssa.Function) bool, depth int) []liftedCall {
+	var out []liftedCall
+	var lift func(cs ssa.CallInstruction, args []ssa.Value, d int)
+	lift = func(cs ssa.CallInstruction, args []ssa.Value, d int) {
+		fn := cs.Parent()
+		if stop(fn) || d <= 0 || fn.Parent() != nil || fn.Object() == nil || fn.Object().Exported() {
+			out = append(out, liftedCall{fn, cs, args})
+			return
+		}
+		sites := w.callsTo(fn)
+		if len(sites) == 0 {
+			out = append(out, liftedCall{fn, cs, args})
+			return
+		}
+		for _, cs2 := range sites {
+			if cs2.Parent().Synthetic != "" {
+				continue
+			}
+			args2 := make([]ssa.Value, len(args))
+			for i, a := range args {
+				args2[i] = a
+				if p := rawParamOf(a, fn); p != nil {
+					if j := paramIndex(p); j >= 0 && j < len(cs2.Common().Args) {
+						args2[i] = cs2.Common().Args[j]
+					}
+				}
+			}
+			lift(cs2, args2, d-1)
+		}
+	}
+	for _, cs := range w.callsTo(target) {
+		lift(cs, cs.Common().Args, depth)
+	}
+	return out
+}
